@@ -7,6 +7,7 @@
 
 extern crate rustc_abi;
 extern crate rustc_ast;
+extern crate rustc_ast_pretty;
 extern crate rustc_data_structures;
 extern crate rustc_driver;
 extern crate rustc_hir;
@@ -33,10 +34,86 @@ use rustc_middle::ty::print::{with_no_trimmed_paths, with_no_visible_paths};
 use rustc_middle::ty::{self, GenericArgsRef, Instance, InstanceKind, Ty, TyCtxt, TypingEnv};
 use rustc_span::Span;
 
-struct Dump;
+#[derive(Default)]
+struct Dump {
+    /// struct/enum attributes as written in the expanded AST (HIR lowering drops inert derive
+    /// helper attributes such as `#[serde(..)]`): def path -> (item attrs, [(field, attrs)])
+    ast_attrs: Vec<(String, Vec<String>, Vec<(String, Vec<String>)>)>,
+}
+
+fn collect_ast_attrs<'tcx>(
+    tcx: TyCtxt<'tcx>,
+    out: &mut Vec<(String, Vec<String>, Vec<(String, Vec<String>)>)>,
+) {
+    use rustc_ast::visit::{self, Visitor};
+    use rustc_ast::{Item, ItemKind, VariantData};
+    let mut raw: Vec<(LocalDefId, Vec<String>, Vec<(String, Vec<String>)>)> = Vec::new();
+    {
+        let stolen = tcx.resolver_for_lowering();
+        let guard = stolen.borrow();
+        let (resolver, krate) = &*guard;
+        struct V<'a, 'tcx> {
+            resolver: &'a ty::ResolverAstLowering<'tcx>,
+            out: &'a mut Vec<(LocalDefId, Vec<String>, Vec<(String, Vec<String>)>)>,
+        }
+        impl<'a, 'tcx, 'ast> Visitor<'ast> for V<'a, 'tcx> {
+            fn visit_item(&mut self, item: &'ast Item) {
+                let vd: Option<&VariantData> = match &item.kind {
+                    ItemKind::Struct(_, _, vd) => Some(vd),
+                    ItemKind::Union(_, _, vd) => Some(vd),
+                    _ => None,
+                };
+                if let Some(vd) = vd {
+                    if let Some(ldid) = self.resolver.node_id_to_def_id.get(&item.id) {
+                        let ia: Vec<String> = item
+                            .attrs
+                            .iter()
+                            .filter(|a| !a.is_doc_comment())
+                            .map(|a| rustc_ast_pretty::pprust::attribute_to_string(a))
+                            .collect();
+                        let mut fs = Vec::new();
+                        for f in vd.fields() {
+                            let nm = f.ident.map(|i| i.to_string()).unwrap_or_default();
+                            let fa: Vec<String> = f
+                                .attrs
+                                .iter()
+                                .filter(|a| !a.is_doc_comment())
+                                .map(|a| rustc_ast_pretty::pprust::attribute_to_string(a))
+                                .collect();
+                            fs.push((nm, fa));
+                        }
+                        self.out.push((*ldid, ia, fs));
+                    }
+                }
+                visit::walk_item(self, item);
+            }
+        }
+        let mut v = V { resolver, out: &mut raw };
+        visit::walk_crate(&mut v, krate);
+    }
+    // the borrow is released: queries that lower to HIR are safe again
+    for (ldid, ia, fs) in raw {
+        out.push((tcx.def_path_str(ldid.to_def_id()), ia, fs));
+    }
+}
 
 impl Callbacks for Dump {
     fn config(&mut self, _config: &mut interface::Config) {}
+
+    fn after_expansion<'tcx>(
+        &mut self,
+        _compiler: &interface::Compiler,
+        tcx: TyCtxt<'tcx>,
+    ) -> Compilation {
+        let name = tcx.crate_name(LOCAL_CRATE).to_string();
+        let wanted = std::env::var("AVGFACTS_CRATES").unwrap_or_default();
+        if wanted.split(',').any(|w| w == name) {
+            let mut v = Vec::new();
+            with_no_trimmed_paths!(with_no_visible_paths!(collect_ast_attrs(tcx, &mut v)));
+            self.ast_attrs = v;
+        }
+        Compilation::Continue
+    }
 
     fn after_analysis<'tcx>(
         &mut self,
@@ -56,7 +133,7 @@ impl Callbacks for Dump {
         if tcx.dcx().has_errors().is_some() {
             return Compilation::Continue;
         }
-        let j = with_no_trimmed_paths!(with_no_visible_paths!(dump_crate(tcx, &name)));
+        let j = with_no_trimmed_paths!(with_no_visible_paths!(dump_crate(tcx, &name, &self.ast_attrs)));
         let mut s = String::with_capacity(1 << 22);
         j.write(&mut s);
         s.push('\n');
@@ -80,7 +157,7 @@ fn main() {
     if is_probe || std::env::var("AVGFACTS_OUT").is_err() {
         rustc_driver::run_compiler(&args, &mut NoOp);
     } else {
-        rustc_driver::run_compiler(&args, &mut Dump);
+        rustc_driver::run_compiler(&args, &mut Dump::default());
     }
 }
 
@@ -232,7 +309,11 @@ impl<'tcx> HasParams for ty::GenericArg<'tcx> {
 
 // ------------------------------------------------------------------------------------------
 
-fn dump_crate<'tcx>(tcx: TyCtxt<'tcx>, name: &str) -> J {
+fn dump_crate<'tcx>(
+    tcx: TyCtxt<'tcx>,
+    name: &str,
+    ast_attrs: &[(String, Vec<String>, Vec<(String, Vec<String>)>)],
+) -> J {
     let mut adts = Vec::new();
     let mut impls = Vec::new();
     let mut statics = Vec::new();
@@ -321,8 +402,31 @@ fn dump_crate<'tcx>(tcx: TyCtxt<'tcx>, name: &str) -> J {
     feats_s.sort();
     let feats: Vec<J> = feats_s.into_iter().map(J::s).collect();
 
+    let ast_attrs_j: Vec<J> = ast_attrs
+        .iter()
+        .map(|(p, ia, fs)| {
+            J::obj()
+                .fs("path", p.clone())
+                .f("attrs", J::Arr(ia.iter().map(|x| J::s(x.clone())).collect()))
+                .f(
+                    "fields",
+                    J::Arr(
+                        fs.iter()
+                            .map(|(n, fa)| {
+                                J::obj()
+                                    .fs("name", n.clone())
+                                    .f("attrs", J::Arr(fa.iter().map(|x| J::s(x.clone())).collect()))
+                                    .done()
+                            })
+                            .collect(),
+                    ),
+                )
+                .done()
+        })
+        .collect();
     J::obj()
         .fs("crate", name)
+        .f("ast_attrs", J::Arr(ast_attrs_j))
         .f("cfg", J::Arr(feats))
         .fs("unsafe_code_lint", unsafe_level)
         .f("adts", J::Arr(adts))
